@@ -224,6 +224,13 @@ class FST:
         rules = Rules(new_rules, rules.optim)
         return IndexedGrammar(rules).remove_useless_rules()
 
+    @staticmethod
+    def _terminal_triple(state_p, terminal, state_q):
+        """ Name of the non-terminal deriving what is read on a terminal (or
+        on epsilon) between two states. It has to differ from the name given
+        to a non-terminal of the grammar carrying the same value. """
+        return str((state_p, ("terminal", terminal), state_q))
+
     def _extract_fst_duplication_rules_intersection(self, new_rules):
         for state_p in self._final_states:
             for start_state in self._start_states:
@@ -235,7 +242,7 @@ class FST:
     def _extract_fst_epsilon_intersection(self, new_rules):
         for state_p in self._states:
             new_rules.append(EndRule(
-                str((state_p, "epsilon", state_p)),
+                self._terminal_triple(state_p, "epsilon", state_p),
                 "epsilon"))
 
     def _extract_fst_delta_intersection(self, new_rules):
@@ -245,17 +252,18 @@ class FST:
             for transition in pair:
                 state_q = transition[0]
                 symbol = transition[1]
-                new_rules.append(EndRule(str((state_p, terminal, state_q)),
-                                         symbol))
+                new_rules.append(EndRule(
+                    self._terminal_triple(state_p, terminal, state_q),
+                    symbol))
 
     def _extract_epsilon_transitions_intersection(self, new_rules):
         for state_p in self._states:
             for state_q in self._states:
                 for state_r in self._states:
                     new_rules.append(DuplicationRule(
-                        str((state_p, "epsilon", state_q)),
-                        str((state_p, "epsilon", state_r)),
-                        str((state_r, "epsilon", state_q))))
+                        self._terminal_triple(state_p, "epsilon", state_q),
+                        self._terminal_triple(state_p, "epsilon", state_r),
+                        self._terminal_triple(state_r, "epsilon", state_q)))
 
     def _extract_indexed_grammar_rules_intersection(self, rules, new_rules):
         for rule in rules.rules:
@@ -279,7 +287,8 @@ class FST:
                     for state_q in self._states:
                         new_rules.append(DuplicationRule(
                             str((state_p, rule.left_term, state_q)),
-                            str((state_p, rule.right_term, state_q)),
+                            self._terminal_triple(state_p, rule.right_term,
+                                                  state_q),
                             "T"))
 
     def _extract_terminals_intersection(self, rules, new_rules):
@@ -289,13 +298,13 @@ class FST:
                 for state_q in self._states:
                     for state_r in self._states:
                         new_rules.append(DuplicationRule(
-                            str((state_p, terminal, state_q)),
-                            str((state_p, "epsilon", state_r)),
-                            str((state_r, terminal, state_q))))
+                            self._terminal_triple(state_p, terminal, state_q),
+                            self._terminal_triple(state_p, "epsilon", state_r),
+                            self._terminal_triple(state_r, terminal, state_q)))
                         new_rules.append(DuplicationRule(
-                            str((state_p, terminal, state_q)),
-                            str((state_p, terminal, state_r)),
-                            str((state_r, "epsilon", state_q))))
+                            self._terminal_triple(state_p, terminal, state_q),
+                            self._terminal_triple(state_p, terminal, state_r),
+                            self._terminal_triple(state_r, "epsilon", state_q)))
 
     def _extract_consumption_rules_intersection(self, rules, new_rules):
         consumptions = rules.consumption_rules
